@@ -203,7 +203,9 @@ def CloneLoopFacts_extractFragmentsRecursive : List String := [
   "assign: *fragments = append(*fragments, fragment)",
   "range: _, child := node.Children",
   "range: _, bodyNode := node.Body",
-  "range: _, orelseNode := node.Orelse"
+  "range: _, orelseNode := node.Orelse",
+  "range: _, handlerNode := node.Handlers",
+  "range: _, finalNode := node.Finalbody"
 ]
 
 def CloneLoopFacts_isFragmentCandidate : List String := [
